@@ -196,7 +196,7 @@ func (s *fakeStore) UpdateData(sm *swap.SwapStateMachine) error {
 	e.served.Store = append(e.served.Store, ok)
 	e.mu.Unlock()
 	e.effect(fmt.Sprintf("EPersist %s %s %s", CoqStr(string(sm.Current)), coqData(sm.Data, string(sm.Current)), CoqBool(ok)),
-		map[string]interface{}{"e": "Persist", "state": string(sm.Current)})
+		map[string]interface{}{"e": "Persist", "state": string(sm.Current), "ok": ok})
 	if !ok {
 		return errFake
 	}
